@@ -641,3 +641,14 @@ def mixer_listlike_real(P, i, p):
 stage("mixer_listlike", extra="var-num", params=mixer_params, weight=2)(
   (mixer_listlike_real, lambda i, p: M.m_mixer(i, mixer_starts(p),
                                                p["keep"])))
+
+
+stage("cascade_with_callable")(
+  (lambda P, i, p: P.lf.CascadeFilter(
+    [make_filter(P, "fir"), lambda sig: P.ls.Stream(sig) * 2,
+     make_filter(P, "delay")])(i[0]),
+   lambda i, p: M.m_each(i)))
+stage("parallel_with_callable")(
+  (lambda P, i, p: P.lf.ParallelFilter(
+    [make_filter(P, "iir"), lambda sig, **kw: P.ls.Stream(sig) + 1])(i[0]),
+   lambda i, p: M.m_each(i)))
